@@ -395,10 +395,15 @@ func (p *KVStore) RegisterAttempt(_ context.Context, paymentHash lntypes.Hash,
 			return err
 		}
 
-		err = htlcsBucket.Put(
-			htlcBucketKey(htlcAttemptInfoKey, htlcIDBytes),
-			htlcInfoBytes,
-		)
+		// Never overwrite an attempt that is already known under
+		// this ID, no matter whether it is in flight or resolved.
+		attemptKey := htlcBucketKey(htlcAttemptInfoKey, htlcIDBytes)
+		if htlcsBucket.Get(attemptKey) != nil {
+			return fmt.Errorf("HTLC with ID %v already registered",
+				attempt.AttemptID)
+		}
+
+		err = htlcsBucket.Put(attemptKey, htlcInfoBytes)
 		if err != nil {
 			return err
 		}
